@@ -85,7 +85,7 @@ Lemma c4_jmember_step_exn : forall og s m, c4js_exn (c4_jmember_step og s m) = c
 Proof.
   intros og s m. unfold c4_jmember_step. destruct (c4js_exn s) eqn:E; try exact E.
   destruct m as [n g|ok|isdict dict data datafile suberr|];
-    try (rewrite c4_jreplace_exn; [first [reflexivity | exact E] | reflexivity]); [|exact E].
+    [reflexivity | rewrite c4_jreplace_exn; [first [reflexivity | exact E] | reflexivity] | | exact E].
   destruct (negb isdict); [first [reflexivity | exact E]|].
   destruct (c4_jis_stream (c4js_tbl s) og); [first [reflexivity | exact E]|].
   rewrite c4_jreplace_exn; [first [reflexivity | exact E] | reflexivity].
@@ -186,4 +186,35 @@ Proof.
   destruct ((0 <? limit) && (limit / 2 <? bpr))%Z; [discriminate|].
   inversion H; subst p; clear H. cbn [c4png_alloc c4png_bpr c4png_incoming].
   rewrite Z.mod_small by lia. destruct decode; repeat split; lia.
+Qed.
+
+(* ------------------------------------------------------------------ qpdf JSON import: a new stream always has data? *)
+(* REFUTED on the reactor as coded: two "stream" members in one entry, both without data - the second one finds the object
+   to be a stream already and clears this_stream_needs_data, so containerEnd reports nothing (finding C04-F-json-dup-stream) *)
+Lemma json_new_stream_has_data_refuted_lemma :
+  exists tbl og ms, c4_jentry_dataless tbl og ms = true /\
+    fst (fst (c4_import_json tbl false [C4jObj (fst og) (snd og) ms])) = C4eNone.
+Proof.
+  exists [], (5, 0), [C4jStream true true false false false; C4jStream true true false false false].
+  vm_compute. split; reflexivity.
+Qed.
+
+(* what does hold: an entry with a single member never leaves a new stream without data *)
+Lemma json_new_stream_has_data_partial_lemma : forall tbl og m, c4_jentry_dataless tbl og [m] = false.
+Proof.
+  intros tbl og m. unfold c4_jentry_dataless. cbn [fold_left c4_jmember_step c4js_exn].
+  assert (Hf : existsb (c4_jog_eqb og) (filter (fun x => negb (c4_jog_eqb og x)) tbl) = false).
+  { clear. induction tbl as [|x t IH]; [reflexivity|]. cbn. destruct (c4_jog_eqb og x) eqn:E; cbn; [exact IH | rewrite E; exact IH]. }
+  unfold c4_jis_stream in *.
+  destruct (existsb (c4_jog_eqb og) tbl) eqn:Ew; [reflexivity|]. cbn [negb andb].
+  destruct m as [n g|ok|isdict dict data datafile suberr|].
+  - cbn - [existsb filter]. rewrite ?Ew, ?andb_false_r; reflexivity.
+  - unfold c4_jreplace, c4_jr_refuses, c4_qpdf_replace_throws. cbn - [existsb filter].
+    unfold c4_jset_stream. rewrite Hf. reflexivity.
+  - destruct isdict; cbn [negb].
+    + cbn - [existsb filter]. rewrite Ew. unfold c4_jreplace, c4_jr_refuses, c4_qpdf_replace_throws. cbn - [existsb filter].
+      destruct data, datafile; cbn - [existsb filter]; try (rewrite ?andb_false_r; reflexivity);
+        unfold c4_jentry_end_err; cbn - [existsb filter]; destruct dict; cbn - [existsb filter]; rewrite ?orb_true_r, ?andb_false_r; reflexivity.
+    + cbn - [existsb filter]. rewrite ?Ew, ?andb_false_r; reflexivity.
+  - cbn - [existsb filter]. rewrite ?Ew, ?andb_false_r; reflexivity.
 Qed.
